@@ -3,6 +3,8 @@ package htsim
 import (
 	"encoding/json"
 	"fmt"
+	"io"
+	"regexp"
 	"os"
 	"runtime"
 	"runtime/debug"
@@ -72,6 +74,7 @@ func TestWorker(t *testing.T) {
 		if os.Getenv("VERIF_TRACE") != "" && res.Sample == nil && firstObs != nil {
 			res.Sample = dumpObs(firstObs, nil)
 		}
+		attachRaces(&res)
 		res.T = "end"
 		res.Seed = sc.Seed
 		emit(res)
@@ -112,6 +115,7 @@ func TestWorker(t *testing.T) {
 		if os.Getenv("VERIF_TRACE") != "" && res.Sample == nil && firstObs != nil {
 			res.Sample = dumpObs(firstObs, nil)
 		}
+		attachRaces(&res)
 		res.T = "end"
 		res.Seed = seed
 		res.Idx = idx
@@ -150,4 +154,91 @@ func TestMakeTemplate(t *testing.T) {
 func deriveSeed(base uint64, prop string, idx int) uint64 {
 	r := NewRng(base, fmt.Sprintf("%s/%d", prop, idx))
 	return r.Uint64() >> 1
+}
+
+// ---- race tier (C01): reports of the race detector, attributed to the scenario that just ran ----
+
+var raceLogOff int64
+
+// raceLogPath is the file the race runtime appends its reports to (GORACE log_path=<prefix> -> <prefix>.<pid>).
+func raceLogPath() string {
+	for _, f := range strings.Fields(os.Getenv("GORACE")) {
+		if strings.HasPrefix(f, "log_path=") {
+			return fmt.Sprintf("%s.%d", strings.TrimPrefix(f, "log_path="), os.Getpid())
+		}
+	}
+	return ""
+}
+
+type raceReport struct {
+	MapVsMap bool   // both accesses are runtime map operations, at least one a write
+	Site     string // first honeytrap frame of the first access
+	Text     string
+}
+
+var htFrameRe = regexp.MustCompile(`(?m)^\s+github\.com/honeytrap/honeytrap/(\S+)\(\)\s*$`)
+
+// newRaceReports returns the reports written since the last call.
+func newRaceReports() []raceReport {
+	p := raceLogPath()
+	if p == "" {
+		return nil
+	}
+	f, err := os.Open(p)
+	if err != nil {
+		return nil
+	}
+	defer f.Close()
+	f.Seek(raceLogOff, 0)
+	b, _ := io.ReadAll(f)
+	raceLogOff += int64(len(b))
+	var out []raceReport
+	for _, blk := range strings.Split(string(b), "==================") {
+		if !strings.Contains(blk, "WARNING: DATA RACE") {
+			continue
+		}
+		// the two access stacks come first: "<Write|Read> at ... by goroutine N:" and "Previous <write|read> at ..."
+		var tops []string
+		var kinds []string
+		lines := strings.Split(blk, "\n")
+		for i, l := range lines {
+			t := strings.TrimSpace(l)
+			if (strings.HasPrefix(t, "Write at") || strings.HasPrefix(t, "Read at") || strings.HasPrefix(t, "Previous write at") || strings.HasPrefix(t, "Previous read at")) && i+1 < len(lines) {
+				kinds = append(kinds, strings.ToLower(strings.Fields(strings.TrimPrefix(t, "Previous "))[0]))
+				tops = append(tops, strings.TrimSpace(lines[i+1]))
+			}
+		}
+		r := raceReport{Text: blk}
+		if m := htFrameRe.FindStringSubmatch(blk); m != nil {
+			r.Site = m[1]
+		}
+		if len(tops) == 2 {
+			isMap := func(s string) bool {
+				return strings.HasPrefix(s, "runtime.map") || strings.HasPrefix(s, "internal/runtime/maps.")
+			}
+			r.MapVsMap = isMap(tops[0]) && isMap(tops[1]) && (kinds[0] == "write" || kinds[1] == "write")
+		}
+		out = append(out, r)
+	}
+	return out
+}
+
+// attachRaces turns map-vs-map races reported during the scenario into violations (the precondition of the
+// runtime's fatal "concurrent map writes"); other races are only counted.
+func attachRaces(res *Result) {
+	if os.Getenv("VERIF_RACE") == "" {
+		return
+	}
+	for _, r := range newRaceReports() {
+		if r.MapVsMap {
+			res.probe("map-races", 1)
+			txt := r.Text
+			if len(txt) > 1400 {
+				txt = txt[:1400]
+			}
+			res.Violate("concurrent-map-access", r.Site, "two handlers released in the same step access one map without synchronisation (in production: fatal error: concurrent map writes / read and map write):"+txt)
+		} else {
+			res.probe("other-races", 1)
+		}
+	}
 }
